@@ -1439,6 +1439,10 @@ func (eval Evaluator) mulRelinThenAdd(op0 *rlwe.Ciphertext, op1 *rlwe.Element[ri
 func (eval Evaluator) Rescale(op0, opOut *rlwe.Ciphertext) (err error) {
 
 	if eval.ScaleInvariant {
+		if op0 != opOut {
+			opOut.Resize(op0.Degree(), op0.Level())
+			opOut.Copy(op0)
+		}
 		return nil
 	}
 
